@@ -9,4 +9,9 @@ cp /repo/go.sum harness/go.sum
 (cd harness && go run ./cmd/extractlayout -repo /repo -shim /verif/cshim-layout -lean /verif/lean/Bng/Gen/Layout.lean && cd ../lean && lake build Bng.Spec.C06 bngdrv-layout) || true   # C06: regenerate the layout tables, build their theorems and driver (a translator failure is reported by ./check C06)
 (cd harness && go build -tags verif -o /dev/null ./cmd/... 2>&1 || (cd /verif/harness && for d in cmd/*; do go build -tags verif -o /dev/null ./$d; done))
 [ -d cshim ] && [ -f cshim/build.sh ] && sh cshim/build.sh || true
+# per-property trace replayers (drv-cNN): generated from lean/Main.lean + checks/*.py, then built one by one so that
+# a module that does not compile only affects its own property
+for exe in $(python3 tools/mkdrivers.py); do (cd lean && lake build "$exe") || echo "WARNING: $exe did not build"; done
+# warm every Spec module
+(cd lean && for f in Bng/Spec/*.lean; do m=$(echo "${f%.lean}" | tr / .); lake build "$m" >/dev/null 2>&1 || echo "WARNING: $m did not build"; done)
 echo setup-ok
